@@ -6,7 +6,7 @@ from ..core import rule
 from ..index import AnalysisError, dotted, src, walk_no_nested, names_in
 from ..cfg import CFG, OTHER
 from ..consteval import run_function, Unfoldable
-from ..util import node_calls, own_expr
+from ..util import node_calls, own_expr, explore, mk_atoms
 from .slots import MOLECULE, SEQUTILS, FRAGMENT
 
 FN = 'Molecule.get_consensus'
@@ -160,10 +160,19 @@ def r2(ctx):
     il = inner[0]
     cfg = CFG(il.body, exceptions=False)
     dom = cfg.dominators()
-    ncont = {n.id for n in cfg.nodes if n.kind == 'test' and src(n.ast.test).replace('"', "'") == "q_base == 'N'" and isinstance(n.ast.body[0], ast.Continue)}
     upd = [n for n in cfg.nodes if n.kind == 'stmt' and isinstance(n.ast, ast.AugAssign) and src(n.ast.target).startswith('consensii[')]
-    ok = len(upd) == 1 and bool(ncont) and all(dom[u.id] & ncont for u in upd)
-    ctx.emit('C13-R2', ok, MOLECULE, upd[0].ast if upd else il, 'the N test (continue) dominates the vote update' if ok else 'an N call can reach the vote update', key='N-excluded')
+    # the called base is the first element of the value the fragment consensus maps a position to
+    qb = None
+    if isinstance(il.target, ast.Tuple) and len(il.target.elts) == 2 and isinstance(il.target.elts[1], ast.Tuple) and isinstance(il.target.elts[1].elts[0], ast.Name):
+        qb = il.target.elts[1].elts[0].id
+    ok = False
+    if qb is not None and len(upd) == 1:
+        # with an N call no feasible path of the loop body reaches the vote update (continue guard, positive if, ...)
+        rs = explore(il.body, mk_atoms({f"{qb} == 'N'": True}))
+        ok = bool(rs) and not any(any(k == 'AugAssign' and t.startswith('consensii[') for t, v, k in r['stores']) for r in rs)
+        rs2 = explore(il.body, mk_atoms({f"{qb} == 'N'": False}))
+        ok = ok and bool(rs2) and all(any(k == 'AugAssign' and t.startswith('consensii[') for t, v, k in r['stores']) for r in rs2 if r['kind'] in ('fall', 'continue'))
+    ctx.emit('C13-R2', ok, MOLECULE, upd[0].ast if upd else il, 'an N call never reaches the vote update, every other call does' if ok else 'an N call can reach the vote update (or a called base does not)', key='N-excluded')
     if upd:
         a = upd[0].ast
         ok = isinstance(a.op, ast.Add) and src(a.value) == '1' and src(a.target).replace('"', "'") == "consensii[position]['ACGTN'.index(q_base)]"
